@@ -142,7 +142,7 @@ def reader_fns(tok):
                                    'byte window over a MaybeUninit<T> -> model call (in bounds iff n <= size_of::<T>(); stores through the window are the storage contents)')],
                       splices=[('^', 'after', 'broadcast use axiom_mut_slice_len, axiom_sbytes_len;')]),
                    ['read_exact'])
-    return [read, Raw(std_read_exact()), read_obj]
+    return [read, raw_with_canary('read_exact', std_read_exact, ['C04']), read_obj]
 
 
 def exact_contract(op, n, delivered):
@@ -162,11 +162,11 @@ def exact_contract(op, n, delivered):
 # 2026-08), copied by hand (TRUSTED copy of std text: `this` -> `self`, the `mut buf` parameter rebound (`dst` -> `let mut buf = dst;`: a
 # `mut` parameter has no name for its initial value), `e.is_interrupted()` written out as `e.kind() == ErrorKind::Interrupted`,
 # `Error::READ_EXACT_EOF` written out as the error it denotes).  VERIFIED against its contract on top of the extracted `read`.
-def std_read_exact():
-    ens = ['final(dst)@.len() == old(dst)@.len() // [C04.reader.read_exact.len]', '%s // [C17.read_exact.unmarked]' % UNMARKED] + exact_contract('read_exact', 'old(dst)@.len()', 'final(dst)@')
+def std_read_exact(canary=False):
+    ens = ['final(dst)@.len() == old(dst)@.len() // [C04.reader.read_exact.len]', '%s // [C17.read_exact.unmarked]' % UNMARKED] + exact_contract('read_exact', 'old(dst)@.len()', 'final(dst)@') + (['false // [canary]'] if canary else [])
     return '''
     #[verifier::exec_allows_no_decreases_clause]
-    fn read_exact(&mut self, dst: &mut [u8], Tracked(dm): Tracked<&mut DirtyLog>) -> (r: io::Result<()>)
+    fn read_exact%s(&mut self, dst: &mut [u8], Tracked(dm): Tracked<&mut DirtyLog>) -> (r: io::Result<()>)
         ensures
             %s
     {
@@ -204,7 +204,14 @@ def std_read_exact():
         }
         if !buf.is_empty() { Err(io::Error::new(io::ErrorKind::UnexpectedEof, "failed to fill whole buffer")) } else { Ok(()) }
     }
-''' % _clauses(ens)
+''' % ('__canary' if canary else '', _clauses(ens))
+
+
+def raw_with_canary(name, mk, props):
+    """a verified hand copy + its vacuity copy (opt-in Raw.canary, vx/build.py)"""
+    r = Raw(mk())
+    r.canary = dict(name=name, text=mk(canary=True), props=props)
+    return r
 
 
 def _clauses(cs):
